@@ -26,6 +26,16 @@ CHECKS = {
         text='Empirical growth test with a x10^3 margin: a violation is an input of <= 80 characters that costs > 0.5 s CPU and at least quadruples when its length doubles (confirmed twice). Covers compile(), every compiled regex reachable in the package, and the match side (attribute values). Not a complexity proof.',
         note='Trusted: time.process_time() of a single-threaded killable worker; token alphabet (hand list + literals extracted from every regex with re._parser).',
         ref='DESIGN.md 3/C07'),
+    'C09': dict(
+        technique='metamorphic property-based testing: lexical respelling of generated selector ASTs (all-sites and single-site delta cases) with structural + behavioural equality oracle',
+        text='A valid full-grammar selector is rendered canonically and respelled at every lexical site the statement lists (whitespace/comments, escapes, quoting, letter case); both spellings must compile to equal .selectors and select the same elements of a witness document. Single-site delta cases name the rule and position of a failure.',
+        note='Trusted: the renderer/respeller (it only emits spellings CSS Syntax defines as equivalent; An+B alternative forms are C02, not here); structural equality is soupsieve\'s own __eq__ on the IR.',
+        ref='DESIGN.md 3/C09'),
+    'C10': dict(
+        technique='round-trip property-based testing: exhaustive code-point sweep + random strings through escape() and back through the selector parser, with an independent CSS un-escaper as differential',
+        text='Every code point (thorough) in three positions plus random strings: "#"/"."/"[a=" + escape(s) must match exactly the element carrying s and no near miss; embedding contexts are judged by the reference matcher; an independent un-escaper maps escape(s) back to s.',
+        note='Trusted: the 30-line independent un-escaper (self-tested), bs4 attribute storage.',
+        ref='DESIGN.md 3/C10'),
 }
 
 NOT_APPLICABLE = []
